@@ -9,7 +9,17 @@ game_query_mod!(
     Engine::new(33930),
     2304
 );
-game_query_mod!(basedefense, "Base Defense", Engine::new(632_730), 27015);
+game_query_mod!(
+    basedefense,
+    "Base Defense",
+    Engine::new(632_730),
+    27015,
+    GatheringSettings {
+        players: GatherToggle::Enforce,
+        rules: GatherToggle::Skip,
+        check_app_id: true,
+    }
+);
 game_query_mod!(alienswarm, "Alien Swarm", Engine::new(630), 27015);
 game_query_mod!(aoc, "Age of Chivalry", Engine::new(17510), 27015);
 game_query_mod!(
